@@ -38,11 +38,17 @@ def strata(tier):
             2: [(a, b) for a in (3, 4, 7, 8, 13) for b in (3, 4, 5, 8, 9, 14, 16)],
             3: [(a, b) for a in (3, 4, 5, 8) for b in (3, 4, 5, 6, 9, 10)],
         }
-    return [dict(id="D%d-%d-%d" % (D, a, b), D=D, No=a, Nn=b) for D in (1, 2, 3) for (a, b) in pairs[D]]
+    return [dict(id="D%d-%d-%d" % (D, a, b), D=D, No=a, Nn=b) for D in (1, 2, 3) for (a, b) in pairs[D]] + [dict(id="D%d-anyN" % D, D=D, No=None, Nn=None) for D in (1, 2, 3)]
 
 
 def strategy(stratum, tier):
     D, No, Nn = stratum["D"], stratum["No"], stratum["Nn"]
+    if No is None:
+        # both grid sizes drawn from a wide range (incl. N_new = N_old +- 1 and sizes delicate for floating point)
+        hi = {1: 200, 2: 32, 3: 12}[D]
+        any_n = gens.st_any_n(D, tier, 3, hi)
+        pair = st.one_of(st.tuples(any_n, any_n), any_n.flatmap(lambda a: st.sampled_from([(a, a + 1), (a + 1, a), (a, 2 * a), (2 * a, a), (a, a)])))
+        return pair.flatmap(lambda ab: strategy(dict(stratum, No=ab[0], Nn=ab[1]), tier))
     kmax = max(0, (min(No, Nn) - 1) // 2)
     return st.integers(1, 3).flatmap(
         lambda C: st.fixed_dictionaries(
